@@ -33,6 +33,7 @@ import (
 	"github.com/dadrus/heimdall/internal/rules/mechanisms/template"
 	"github.com/dadrus/heimdall/internal/x"
 	"github.com/dadrus/heimdall/internal/x/errorchain"
+	"github.com/dadrus/heimdall/internal/x/hashx"
 	"github.com/dadrus/heimdall/internal/x/stringx"
 )
 
@@ -230,15 +231,15 @@ func (f *jwtFinalizer) calculateCacheKey(ctx heimdall.Context, sub *subject.Subj
 	binary.LittleEndian.PutUint64(ttlBytes, uint64(f.ttl))
 
 	hash := sha256.New()
-	hash.Write(f.signer.Hash())
-	hash.Write(x.IfThenElseExec(f.claims != nil,
+	hashx.WriteBytes(hash, f.signer.Hash())
+	hashx.WriteBytes(hash, x.IfThenElseExec(f.claims != nil,
 		func() []byte { return f.claims.Hash() },
 		func() []byte { return []byte{} }))
 	hash.Write(ttlBytes)
-	hash.Write(sub.Hash())
+	hashx.WriteBytes(hash, sub.Hash())
 
 	rawSub, _ := json.Marshal(ctx.Outputs())
-	hash.Write(rawSub)
+	hashx.WriteBytes(hash, rawSub)
 
 	return hex.EncodeToString(hash.Sum(nil))
 }
